@@ -338,4 +338,60 @@ def jnRun (s : JoinSt) : List JnOp → Option JoinSt
     | none => none
     | some (s', _, _) => jnRun s' rest
 
+/-! ### a batch promotion in flight on the leader (`handle_promote_ready_learners` → `safe_batch_promote`,
+    then acknowledgements, then commit-time application + `handle_membership_applied`) -/
+
+structure PqSt where
+  leader : Leader
+  confs : List (Nat × Change) := []     -- config entries in the leader's log: (index, change)
+  appliedConfs : Nat := 0               -- how many of them the leader has applied
+deriving Repr, Inhabited
+
+inductive PqOp where
+  | promote (pending : List Nat)
+  | ack (peer respTerm matchIdx : Nat)
+  | flushed (durable : Nat)
+  | apply                                -- commit handler applies the committed, not yet applied config entries
+  | bad
+
+/-- apply the config entries with index ≤ commit that are not applied yet, one `handleChange` each -/
+def pqApply (s : PqSt) : Nat → PqSt × List String
+  | 0 => (s, [])
+  | fuel + 1 =>
+    match s.confs[s.appliedConfs]? with
+    | none => (s, [])
+    | some (idx, c) =>
+      if idx ≤ s.leader.commit then
+        let r := handleChange s.leader c
+        let t := pqApply { s with leader := r.1, appliedConfs := s.appliedConfs + 1 } fuel
+        (t.1, r.2.1 ++ t.2)
+      else (s, [])
+
+/-- The cached configuration (`cluster_metadata`) is *not* touched by proposing: it follows the
+    membership, which changes only when the entry is applied. -/
+def pqStep (s : PqSt) : PqOp → Option (PqSt × List String × String)
+  | .promote pending =>
+    let k := safeBatchSize ((voters s.leader.self s.leader.view.nodes).length + 1) pending.length
+    if pending.isEmpty then some (s, ["left:-"], "pq:promote-empty")
+    else if k == 0 then some (s, ["left:" ++ showIds pending], "pq:promote-zero")
+    else
+      let l := { s.leader with log := s.leader.log ++ [s.leader.term] }
+      some ({ s with leader := l, confs := s.confs ++ [(l.log.length, .batchPromote (pending.take k) sActive)] },
+        ["left:" ++ showIds (pending.drop k)], "pq:promote")
+  | .ack p t m =>
+    let r := handleAppendResult s.leader p t (.success m)
+    some ({ s with leader := r.1 }, r.2.1.filter (fun e => e.startsWith "N" || e == "BF" || e.startsWith "!"), "pq:" ++ r.2.2)
+  | .flushed d =>
+    match handleLogFlushed s.leader d with
+    | none => none
+    | some r => some ({ s with leader := r.1 }, r.2.1.filter (fun e => e.startsWith "N" || e == "BF" || e.startsWith "!"), "pq:" ++ r.2.2)
+  | .apply =>
+    let r := pqApply s (s.confs.length + 1)
+    some (r.1, r.2, if r.1.appliedConfs > s.appliedConfs then "pq:apply" else "pq:apply-nothing")
+  | .bad => some (s, ["!bad-op"], "bad-op")
+
+def pqRecord (s : PqSt) (ev : List String) : String :=
+  let l := s.leader
+  s!"c{l.commit} l{l.log.length} m[{showMap l.matchIdx}] v[{showIds (voterPeers l.targets)}] tv{l.totalVoters} sv{if l.singleVoter then 1 else 0} e[{if ev.isEmpty then "-" else ",".intercalate ev}]"
+
 end DEngine.Commit
